@@ -3,7 +3,7 @@
      self.data.last().map(|&last| { let hi = (last >> 32) as u32; if hi == 0 { last as u32 } else { hi } })
    ignoring the digits already consumed from the front.  Modelled here next to the current
    code: it does not refine the deque, the fixed `last = next_back` does (IterProofs.it_last_spec). *)
-From BigNum Require Import Base BaseLemmas Iter SpecBytes BytesLemmas IterProofs.
+From BigNum Require Import Base BaseLemmas Iter SpecBytes BytesLemmas IterProofs Extracted.
 Open Scope Z_scope.
 
 Definition it_last_old (s : u32it) : option Z :=
@@ -14,6 +14,6 @@ Definition it_last_old (s : u32it) : option Z :=
 
 (** BigUint(5).iter_u32_digits(): next(); last()  returned Some(5), the deque says None *)
 Example u32digits_last_old_refuted :
-  let s := snd (it_next (it_new [5])) in
-  inv s /\ abs s = [] /\ it_last_old s = Some 5 /\ it_last s = None.
+  let s := snd (it_next Extracted.iter (it_new Extracted.iter [5])) in
+  inv s /\ abs s = [] /\ it_last_old s = Some 5 /\ it_last Extracted.iter s = None.
 Proof. cbv zeta. repeat split; vm_compute; try reflexivity; intros; discriminate. Qed.
